@@ -265,10 +265,16 @@ func (s *Scenario) addRuntime(rng *rand.Rand, profile string) {
 	if rp.SlashLiveness > 0 || rp.MaxLivenessFailures > 0 {
 		slashing[staking.SlashRuntimeLiveness] = staking.Slash{Amount: q(rp.SlashLiveness), FreezeInterval: beacon.EpochTime(rp.LivenessFreeze)}
 	}
+	// The runtime is owned by the first genesis entity (never slashed in the scenarios) or by the third
+	// one, whose escrow can fall below its stake claims (runtime suspension for lack of stake).
+	s.RuntimeOwner = s.Entities[0]
+	if rng.IntN(2) == 0 {
+		s.RuntimeOwner = s.Entities[2]
+	}
 	rt := &registry.Runtime{
 		Versioned:   cbor.NewVersioned(registry.LatestRuntimeDescriptorVersion),
 		ID:          id,
-		EntityID:    s.Entities[0].PK,
+		EntityID:    s.RuntimeOwner.PK,
 		Kind:        registry.KindCompute,
 		TEEHardware: node.TEEHardwareInvalid,
 		Executor: registry.ExecutorParameters{
